@@ -34,8 +34,8 @@ class C01(Property):
     driver = "drv_c01"
     partial = ("that real kitty/iTerm2/WezTerm/Konsole behave like TIV.Common.Term (the quirk table is the "
                "library's own stated belief); that a terminal parses the bytes back into the tokens (parser theorem pending)")
-    quick_cases = 500
-    thorough_cases = 6000
+    quick_cases = 1500
+    thorough_cases = 12000
 
     def gen_constants(self):
         return gen_ctl()
@@ -95,7 +95,96 @@ class C01(Property):
                 else:
                     d["jpeg"] = rng.choice([-1, -1, 30, 95])
                 kind = f"{style}-{d['method']}" + (f"-{d['term']}" if style == "iterm2" else "") + ("-native" if d.get("animated") else "") + ("-exact" if d.get("exact") else "") + ("-viasupported" if d.get("via_supported") else "")
+            # where the image comes from and which public entry point produces the render output
+            if not d.get("dynamic") and not d.get("exact") and rng.random() < 0.55:
+                d["source"] = rng.choice(["pil-file", "file", "pil-nofile"])
+                if not d.get("animated") and rng.random() < 0.35:
+                    d["animated"] = rng.choice([2, 3])
+                    d["frame_no"] = rng.randrange(d["animated"])
+                if style == "iterm2":
+                    d["read_from_file"] = rng.random() < 0.6
+                    d["small_anim_limit"] = rng.random() < 0.3
+            if not d.get("dynamic") and rng.random() < 0.5:
+                d["entry"] = rng.choice(["str", "format", "format", "iter"] if d.get("animated") else ["str", "format", "format"])
+            kind += ("-" + d["source"] if d.get("source") else "") + ("-" + d["entry"] if d.get("entry") else "") \
+                + ("-frames" if d.get("animated") and "-native" not in kind else "")
             yield Case("", d, kind, True)
+
+    # -- sources and entry points -----------------------------------------------------
+    def _instance(self, cls, img, d):
+        """the image instance, from the source flavour asked for (in-memory PIL image by default)"""
+        src = d.get("source")
+        n = d.get("animated")
+        if not src and not n:
+            return cls(img)
+        if n:
+            frames = []
+            for k in range(n):
+                dd = dict(d, iseed=d["iseed"] + k, mode="RGB")
+                frames.append(imgkit.make_image(dd).convert("P"))
+            path = os.path.join(TMP, f"anim-{d['iseed']}.gif")
+            frames[0].save(path, save_all=True, append_images=frames[1:], duration=100, loop=0)
+        else:
+            ext, kw = ("jpg", {"quality": 90}) if img.mode in ("RGB", "L", "CMYK") and d["iseed"] % 2 else ("png", {})
+            src_img = img if img.mode in ("1", "L", "LA", "P", "RGB", "RGBA") or ext == "jpg" else img.convert("RGBA" if "A" in img.mode else "RGB")
+            path = os.path.join(TMP, f"still-{d['iseed']}.{ext}")
+            src_img.save(path, **kw)
+        if src in (None, "file"):
+            return cls.from_file(path)
+        if src == "pil-file":
+            return cls(Image.open(path))  # has a readable `filename`
+        import io
+        return cls(Image.open(io.BytesIO(open(path, "rb").read())))  # no file behind it
+
+    def _output(self, im, d, alpha, **style_args):
+        """the render output, through the entry point asked for; returns (output, effective alpha, effective style args)"""
+        import inspect
+        from term_image.image import ImageIterator
+        entry = d.get("entry")
+        animated = im._is_animated  # Pillow merges identical frames: a "2-frame" file may have one
+        frame_no = d.get("frame_no", 0) if animated and d.get("frame_no", 0) < im.n_frames else 0
+        if entry == "iter" and not animated:
+            entry = "format"
+        if frame_no and entry != "iter":
+            im.seek(frame_no)
+        if not entry:
+            return im._renderer(im._render_image, alpha, **style_args), style_args
+        defaults = {k: p.default for k, p in inspect.signature(type(im)._render_image).parameters.items()
+                    if p.kind is p.KEYWORD_ONLY and k != "frame"}
+        if entry == "str":
+            eff = dict(defaults)
+            if "method" in style_args:
+                im.set_render_method(style_args["method"])
+                eff["method"] = style_args["method"]
+            eff.pop("method", None) if "method" not in style_args else None
+            return str(im), eff
+        # format spec: no padding ("1.1" never exceeds a render), alpha and style part spelled out
+        a = "#" if alpha is None else ("#" + alpha[1:] if isinstance(alpha, str) and len(alpha) > 1 else
+                                       "##" if alpha == "#" else "#" + repr(float(alpha))[1:])
+        eff = dict(defaults)
+        st = ""
+        if "method" in style_args:
+            st += {"lines": "L", "whole": "W", "anim": "A"}[style_args["method"]]
+            eff["method"] = style_args["method"]
+        if "z_index" in style_args:
+            st += f"z{style_args['z_index']}"
+            eff["z_index"] = style_args["z_index"]
+        if "mix" in style_args:
+            st += f"m{int(style_args['mix'])}"
+            eff["mix"] = style_args["mix"]
+        if "compress" in style_args:
+            st += f"c{style_args['compress']}"
+            eff["compress"] = style_args["compress"]
+        spec = "1.1" + a + ("+" + st if st else "")
+        if entry == "format":
+            return format(im, spec), eff
+        it = ImageIterator(im, 1, spec, False)
+        try:
+            for _ in range(frame_no + 1):
+                out = next(it)
+        finally:
+            it.close()
+        return out, eff
 
     # -- run the real code, build the model request from what the real code was given ------
     def _render(self, d):
@@ -106,7 +195,7 @@ class C01(Property):
         env.set_env(bg=d["bg"], term_size=(200, 100))
         if style == "block":
             env.set_env(is_on_kitty=d["kitty_term"])
-            im = BlockImage(img)
+            im = self._instance(BlockImage, img, d)
             if d.get("dynamic"):
                 import term_image as _ti
                 env.set_env(term_size=tuple(d["tsize"]))
@@ -128,12 +217,17 @@ class C01(Property):
                 return r
 
             im._get_render_data = spy
-            out = im._renderer(im._render_image, d["alpha"], split_cells=d["split"])
+            if d.get("entry"):
+                out, _ = self._output(im, d, d["alpha"])
+                split = False
+            else:
+                out, _ = self._output(im, d, d["alpha"], split_cells=d["split"])
+                split = d["split"]
             width = im._get_render_size()[0]
             rgb = bytes(c for px in cap["rgb"] for c in px)
             a = bytes(cap["a"])
             bg = "none" if d["bg"] is None else ",".join(map(str, d["bg"]))
-            line = (f"block {int(cap['mode'] == 'RGBA')} {int(d['kitty_term'])} {bg} {int(d['split'])} "
+            line = (f"block {int(cap['mode'] == 'RGBA')} {int(d['kitty_term'])} {bg} {int(split)} "
                     f"{width} {hx(rgb)} {hx(a)}")
             d["_size"] = list(im.rendered_size)
             return out, line
@@ -151,44 +245,49 @@ class C01(Property):
             def restore():
                 ITerm2Image.forced_support = False
                 ITerm2Image._supported = True
-        if d.get("animated"):
-            frames = []
-            for k in range(d["animated"]):
-                dd = dict(d, iseed=d["iseed"] + k, mode="RGB")
-                frames.append(imgkit.make_image(dd).convert("P"))
-            path = os.path.join(TMP, f"anim-{d['iseed']}.gif")
-            frames[0].save(path, save_all=True, append_images=frames[1:], duration=100, loop=0)
-            im = cls.from_file(path)
-        else:
-            im = cls(img)
+        im = self._instance(cls, img, d)
         if restore:
             restore()
         im.set_size(width=d["cols"]) if d["cols"] <= d["lines"] else im.set_size(height=d["lines"])
         rw, rh = im.rendered_size
         d["_size"] = [rw, rh]
         if style == "kitty":
-            out = im._renderer(im._render_image, d["alpha"], method=d["method"], z_index=d["z"], mix=d["mix"],
-                               compress=d["compress"], blend=d["blend"])
+            if d.get("entry"):
+                out, eff = self._output(im, d, d["alpha"], method=d["method"], z_index=d["z"], mix=d["mix"], compress=d["compress"])
+            else:
+                out, eff = self._output(im, d, d["alpha"], method=d["method"], z_index=d["z"], mix=d["mix"],
+                                        compress=d["compress"], blend=d["blend"])
             toks = tk.tokenize(out)
             cmds = [t for t in toks if t.wire.startswith("K")]
             payloads = [base64.standard_b64decode("".join(c for _, c in t.info["chunks"])) for t in cmds]
             fmt = int(cmds[0].info["keys"]["f"])
             whole = d["method"] == "whole"
             width, height = im._get_minimal_render_size() if whole else im._get_render_size()
-            line = (f"kitty {int(whole)} {int(d['blend'])} {int(d['mix'])} {d['z']} {d['compress']} {fmt} "
+            line = (f"kitty {int(whole)} {int(eff['blend'])} {int(eff['mix'])} {eff['z_index']} {eff['compress']} {fmt} "
                     f"{rw} {rh} {width} {height} {len(payloads)} " + " ".join(hx(p) for p in payloads))
             return out, line
         ITerm2Image.jpeg_quality = d["jpeg"]
+        if "read_from_file" in d:
+            ITerm2Image.read_from_file = d["read_from_file"]
+        old_limit = ITerm2Image.native_anim_max_bytes
+        if d.get("small_anim_limit"):
+            ITerm2Image.native_anim_max_bytes = 1
         try:
-            out = im._renderer(im._render_image, d["alpha"], method=d["method"], mix=d["mix"], compress=d["compress"])
+            import warnings
+            with warnings.catch_warnings():
+                warnings.simplefilter("ignore")
+                out, eff_args = self._output(im, d, d["alpha"], method=d["method"], mix=d["mix"], compress=d["compress"])
         finally:
             del ITerm2Image.jpeg_quality
+            if "read_from_file" in d:
+                del ITerm2Image.read_from_file
+            ITerm2Image.native_anim_max_bytes = old_limit
         toks = tk.tokenize(out)
         cmds = [t for t in toks if t.wire.startswith("I")]
         payloads = [base64.standard_b64decode(t.info["payload"]) for t in cmds]
         whole = d["method"] != "lines"
         eff = d.get("_eff_term", d["term"])
-        line = (f"iterm {int(whole)} {int(eff == 'konsole')} {int(eff == 'wezterm')} {int(d['mix'])} "
+        line = (f"iterm {int(whole)} {int(eff == 'konsole')} {int(eff == 'wezterm')} {int(eff_args['mix'])} "
                 f"{rw} {rh} {len(payloads)} " + " ".join(hx(p) for p in payloads))
         return out, line
 
